@@ -45,27 +45,27 @@ package statefulset
 //@ func isRunningAndReady
 //@   pure
 //@   requires pod != nil
-//@   ensures result == isRunningAndReadyS(pod)
+//@   ensures [C02,C05,C07,C12,C14] result == isRunningAndReadyS(pod)
 //@ func isCreated
 //@   pure
 //@   requires pod != nil
-//@   ensures result == isCreatedS(pod)
+//@   ensures [C02,C04,C05,C12,C14] result == isCreatedS(pod)
 //@ func isFailed
 //@   pure
 //@   requires pod != nil
-//@   ensures result == isFailedS(pod)
+//@   ensures [C02,C03,C04,C05,C12,C14] result == isFailedS(pod)
 //@ func isSucceeded
 //@   pure
 //@   requires pod != nil
-//@   ensures result == isSucceededS(pod)
+//@   ensures [C02,C03,C04,C05,C12,C14] result == isSucceededS(pod)
 //@ func isTerminating
 //@   pure
 //@   requires pod != nil
-//@   ensures result == isTerminatingS(pod)
+//@   ensures [C02,C05,C07,C12,C14] result == isTerminatingS(pod)
 //@ func isHealthy
 //@   pure
 //@   requires pod != nil
-//@   ensures result == isHealthyS(pod)
+//@   ensures [C02,C05,C07,C12,C14] result == isHealthyS(pod)
 //@ func allowsBurst
 //@   pure
 //@   requires set != nil
@@ -73,7 +73,7 @@ package statefulset
 //@ func getPodRevision
 //@   pure
 //@   requires pod != nil
-//@   ensures result == revOf(pod)
+//@   ensures [C02,C03,C07,C12,C13] result == revOf(pod)
 //@ func getPodName
 //@   pure
 //@   requires set != nil
@@ -169,7 +169,7 @@ package statefulset
 //@ func ascendingOrdinal.Less
 //@   requires 0 <= i && i < len(ao) && 0 <= j && j < len(ao) && ao[i] != nil && ao[j] != nil
 //@   pure
-//@   ensures [C03,C05,C14] byordinal: result == (ordOf(ao[i]) < ordOf(ao[j]))
+//@   ensures [C05] byordinal: result == (ordOf(ao[i]) < ordOf(ao[j]))
 //@ func ascendingOrdinal.Len
 //@   pure
 //@   ensures [C05,C14] result == len(ao)
